@@ -70,12 +70,12 @@ for pid, extra, tech in [
     ("C01", "Theorems: C01_isolation_step / C01_isolation_hist_partial (per step: a returned session is one created by this call - next ordinal, empty, no user - or the one the presented ID resolves to) and, at the history level (Properties/C01H.v), C01_safety_hist: for every configuration, cache size, tie-break list, number of cookie-following clients and every hop kind (requests with any scripts without GetAndDelete, waits, PurgeSessions, cache loss, restarts, LogOut(userID), RefreshUser, configuration changes that keep the codec), whenever a request returns a session its data and user ID are exactly what that client's own acknowledged operations last wrote (ghost per-client specification), or it was created in that step; proved through the jar invariant C01_jar_inv_hist (each live client's jar holds a drawn ID that resolves to its ghost content; jars of different clients differ). Liveness: C01_live_step_partial and C01_live_run_partial (from C03H_live); the full history-level liveness statement is a Definition tested by vm_compute, and its 'any acceptable peer' variant is refuted at cache size 1 (C01_liveness_rules_refuted - the case the property itself leaves open). C01_with_getdel_refuted records D6. PARTIAL only in: codec switches mid-history, forged presentations (covered by correspondence + oracle), history-level liveness.", "Coq per-step lemmas + invariants + differential correspondence + trace oracle"),
     ("C02", "C02_unknown / C02_nolookup per call (no existing session, fresh server ID, only one load under the value, logical content of every other ID unchanged; non-24-character values are never looked up) and their history-level forms (Properties/C02H.v): the state hypotheses hold in every state of a fault-free history (C02H_hypotheses_hold), junk values, not-yet-issued IDs and IDs that are gone never resolve in any continuation (C02H_junk_unknown, C02H_undrawn_unknown, C02H_gone_unknown). Assumption: presented values are not future draws (2^-128).", "Coq per-call theorem over all states + correspondence with forged-cookie stream"),
     ("C03", "Per call: C03_dead, C03_expired_pred, C03_live. History level (Properties/C03H.v): C03H_access_monotone (through the codec the access time of every ID never decreases along calm histories - evictions, sweeps, purges, config changes, any clients - for every cache size), C03H_access_now, C03H_live (a client whose gaps are below SessionExpiry minus the codec's slack, from acceptable peers, with cache size >= 1, is served at every request incl. rotating ones and after evict/purge/reload, for all values of the other durations), C03H_dead_hist (a stale ID never resolves again in any continuation incl. crashes and restarts).", "Coq per-call theorems + correspondence with waits at thresholds +-1ns + steady-client histories"),
-    ("C04", "C04_seq for regenerate/login/start (due => exactly one draw, cookie, same data/user, old ID becomes reference; not due => nothing), instances for 0 and MaxInt64; concurrent clause checked on K=2..32 real goroutines (one draw, one session) and resting on C13.", "Coq per-call theorems + correspondence + real concurrent runs"),
-    ("C05", "C05_chain (follow reaches the live session, fuel suffices under ref_wf), C05_pending/C05_grace_dead, C05_backstop, C05_expired_ref. Known finding D10 (SessionExpiry < grace) reported as KNOWN-FINDING.", "Coq per-call theorems + correspondence with chains, grace +-1ns, restarts"),
+    ("C04", "C04_seq for regenerate/login/start (due => exactly one draw, cookie, same data/user, old ID becomes reference; not due => nothing), instances for 0 and MaxInt64; history level (Properties/C04H.v): C04H_draws (in every request step the EvDraw ordinals equal the ordinals of its new live cookies, consecutive from the supply: every creation and every ID change draws exactly one ID, a redirect none) and C04H_no_draw; concurrent clause checked on K=2..32 real goroutines (one draw, one session) and resting on C13.", "Coq per-call theorems + correspondence + real concurrent runs"),
+    ("C05", "C05_chain (follow reaches the live session, fuel suffices under ref_wf), C05_pending/C05_grace_dead, C05_backstop, C05_expired_ref. History level (Properties/C05H.v): the invariant LI (references point to drawn IDs of strictly larger ordinal; no ID queued twice; cache agrees with store on references) holds in every reachable state incl. restarts (C05H_inv_step, C05H_ref_wf_hist), so a request never returns a placeholder and ERefLoop is unreachable (C05H_never_placeholder_hist); a placeholder stays intact until its clean-up is due along any restart-free history that does not itself invalidate it (C05H_grace_kept), chains grow by one hop per ID change and presenting the oldest ID returns the live session with the cookie redirected to the last ID (C05H_chain_kept, C05H_grace_live), after a wait reaching the due instant the ID is gone for good (C05H_grace_dead, C05H_grace_dead_forever). The clean-up racing with concurrent requests at the end of grace is sampled on real goroutines (family conc05). Known finding D10 (SessionExpiry < grace; C05_short_expiry_refuted) reported as KNOWN-FINDING.", "Coq per-call theorems + correspondence with chains, grace +-1ns, restarts"),
     ("C06", "C06_ip/C06_ua (the pure rules as iff-specifications for all peers/n/agents), C06_destroy, C06_moves per call; history level (Properties/C06H.v): C06H_destroy for every reachable state, C06H_destroy_for_good (the destroyed ID never resolves again), C06H_moves (for every world, fault plan and crash: the returned session carries the request's peer, agent and instant).", "Coq pure-rule specifications + per-call theorems + correspondence over address/agent pairs"),
     ("C07", "Theorems (fault-free histories incl. crashes, cache loss, restarts): C07_destroy; C07_inv_step/C07_inv_hist (cache_ok, nodup_ok, fresh_ok preserved by every step); C07_not_reissued (an ID in use is never drawn again); C07_stays_dead (a drawn ID absent from cache and store is never cached, stored, saved under, returned by Start, held by a handler or sent as a live cookie in any continuation); C07_destroyed_never_returns / C07_invalidated_never_returns (the ending step expires the cookie and leaves the ID dead).", "Coq per-call lemma + history invariants + correspondence with replays of former IDs"),
     ("C08", "Theorems per call over memory and store on every state satisfying the history invariant: C08_login (user attached, fresh ID, stored record under the new ID carries the user, replaced ID carries none; exclusive: every other listed ID carries no user in store nor L), C08_logout, C08_logout_user, C08_refresh, C08_index, C08_tolerant (never Panic/Err; listed-but-missing IDs skipped). Survival across cache loss follows from C09_loss.", "Coq per-call theorems + correspondence over users/sessions/stale listings"),
-    ("C18", "every CkLive carries the ID (at the end of the call) of the session returned/operated on and resolves to a non-reference record; no cookie when nothing changed; CkDelete only when the presented ID is gone; the model never emits a malformed cookie. Template attributes are tied by the harness comparing every Set-Cookie with the randomised template's own serialisation.", "Coq per-call cookie theorems + correspondence with randomised cookie templates"),
+    ("C18", "every CkLive carries the ID (at the end of the call) of the session returned/operated on and resolves to a non-reference record; no cookie when nothing changed; CkDelete only when the presented ID is gone; the model never emits a malformed cookie. History level (Properties/C18H.v): C18H_no_bad (no malformed cookie in any response of any history, whatever its faults and crashes), C18H_session (for every request step that returns a session: the last live cookie carries the session's final ID, no cookie means the presented ID is that ID, the jar ends at it and it resolves to a non-reference record unless the script destroyed it), C18H_silent, C18H_no_session. Template attributes are tied by the harness comparing every Set-Cookie with the randomised template's own serialisation.", "Coq per-call cookie theorems + correspondence with randomised cookie templates"),
 ]:
     CLAIMED[pid] = dict(text=(SESSION_GENERIC % pid) + " " + extra, note=COMMON_NOTE + "Python oracles (checks/oracles.py) are used only to turn real traces into violations. net/http, encoding/gob|json, time, regexp assumed as specified in DESIGN.md section 4.", technique=tech, design="5/" + pid)
 
